@@ -133,6 +133,15 @@ class Sim(object):
             self.classes[cname] = self.build_class(cname, cspec, True)
             self.twins[cname] = self.build_class(cname + 'Twin', cspec, False)
 
+    def fresh_recorder(self):
+        """a brand new TapeRecorder over the same cassette, PRNG script and clock; class parameters re-registered"""
+        from playback.tape_recorder import TapeRecorder
+        rnd = self.tr._random
+        self.tr = TapeRecorder(self.spy)
+        self.tr._random = rnd
+        for cname, cspec in self.case['classes'].items():
+            self.classes[cname] = self.build_class(cname, cspec, True)
+
     def close(self):
         import time as _t
         self.trm.time = _t.time
@@ -440,7 +449,10 @@ class Sim(object):
     def run_history(self):
         out = []
         ctx, tr, spy = self.ctx, self.tr, self.spy
-        for run in self.case['runs']:
+        for run_index, run in enumerate(self.case['runs']):
+            if self.case.get('fresh_before_last') and run_index == len(self.case['runs']) - 1:
+                self.fresh_recorder()
+                tr = self.tr
             ctx.run = run
             ctx.journal = []
             ctx.clock = list(run.get('clock', []))
